@@ -338,10 +338,12 @@ func (w h2Writer) CloseWrite() error {
 
 func (p proxyHandler) writeErrorResponse(rw http.ResponseWriter, req *http.Request, err error) {
 	res := maybeConnectErrorResponse(err)
+	modify := p.modifyResponse
 	if res == nil {
 		res = p.errorResponse(req, err)
+		modify = p.modifyErrorResponse
 	}
-	if err := p.modifyResponse(res); err != nil {
+	if err := modify(res); err != nil {
 		log.Error(req.Context(), "error modifying error response", "error", err)
 		if !p.WithoutWarning {
 			proxyutil.Warning(res.Header, err)
